@@ -687,18 +687,25 @@ def first_last_table(R, ctx, rid):
         R.ob(rid, fn, "none-kinds", nones == {"Deleted", "Format"}, "answers None for %s" % sorted(nones))
 
 
-KIND_PRESERVING = ("<yrs::block::ItemContent as std::clone::Clone>::clone",)
+KIND_PRESERVING = (
+    # function, kinds it must construct (None = every kind of the enum), constructions counted on the pinned tree
+    ("<yrs::block::ItemContent as std::clone::Clone>::clone", None, 9),
+    ("yrs::block::ItemContent::splice", ("Any", "Deleted", "JSON", "String"), 4),  # one per kind: in-place left halves are legitimate
+)
 
 
 def kind_preserving(R, ctx, rid):
-    """A copy of an ItemContent has the kind of the original."""
+    """A copy or a half of an ItemContent has the kind of the original."""
     Y = ctx.yrs
     R.rule(rid, "R-TABLE ItemContent::clone — what ItemPtr::redo re-creates an undone element from — constructs, in the arm of every kind, "
                 "a value of that same kind (kinds_reaching per construction), and every kind of the enum is constructed: an Embed copied "
-                "as Any keeps its length and index but is no longer rendered by the text readers, so undo restores the wrong content")
+                "as Any keeps its length and index but is no longer rendered by the text readers, so undo restores the wrong content. "
+                "Likewise ItemContent::splice: both halves of a split Any / String / JSON and the right half of a Deleted are built "
+                "only for an original of the same kind, and exactly these four kinds are split")
     allk = [v["name"] if isinstance(v, dict) else (v[1] if isinstance(v, (list, tuple)) else v) for v in Y.enums.get("yrs::block::ItemContent", [])]
-    for path in KIND_PRESERVING:
+    for path, kinds, floor in KIND_PRESERVING:
         fn = Y.fn(path)
+        want = list(kinds) if kinds else allk
         built = set()
         n = 0
         for i, j, st in fn.stmts():
@@ -713,6 +720,9 @@ def kind_preserving(R, ctx, rid):
                 built.add(var)
             R.ob(rid, fn, "copy:" + var, ok, "built only for a %s original" % var if ok else
                  "a %s is built where the original is %s" % (var, sorted(ks) if used else "of any kind"), "yrs/src/block.rs:%s" % st.get("line"))
-        missing = [k for k in allk if k not in built]
-        R.ob(rid, fn, "all-kinds", bool(allk) and not missing, "every kind is copied as itself" if allk and not missing else "no copy of kind %s" % missing)
-        R.floor(rid, "constructions in %s" % path.rsplit("::", 1)[-1], n, 9)
+        missing = [k for k in want if k not in built]
+        extra = [k for k in built if k not in want]
+        R.ob(rid, fn, "all-kinds", bool(want) and not missing and not extra,
+             "every kind is copied as itself" if want and not missing and not extra else
+             "no copy of kind %s%s" % (missing, "; unexpected %s" % extra if extra else ""))
+        R.floor(rid, "constructions in %s" % path.rsplit("::", 1)[-1], n, floor)
